@@ -730,6 +730,15 @@ class Fn:
                 env2[oname] = (nv, ot)
                 return "let %s := (%s %s %s) in\n%s" % (nv, self.setters[t0.attr], obj, val,
                                                        self.block(rest, env2, rtype))
+            if isinstance(t0, ast.Name) and isinstance(s.value, ast.Call) and self.spec.get("raising_calls") \
+                    and isinstance(s.value.func, (ast.Name, ast.Attribute)) and self.callname(s.value.func) in self.spec["raising_calls"]:
+                # [C10] spec option "raising_calls": [callee, ...] (with "option_result"): the callee is itself translated with
+                # "option_result" (None = it raised); `v = callee(...)` binds v on Some and propagates None (the exception)
+                if not self.spec.get("option_result") or self.err is None:
+                    _fail(s, "raising_calls needs option_result and an error value")
+                tx = self.expr(s.value, env)
+                pat, env2 = self.bind(t0, tx, env, s)
+                return "match %s with\n| Some %s => (%s)\n| None => %s\nend" % (tx[0], pat, self.block(rest, env2, rtype), self.err)
             if isinstance(t0, ast.Subscript) and self.static_kinds:
                 nv, txt, env2 = self.item_assign(s, env)      # [C14]
                 return "let %s := %s in\n%s" % (nv, txt, self.block(rest, env2, rtype))
